@@ -191,11 +191,21 @@ def bulk_tree_case(seed, n, shape="uniform", regime="float", soma_root=True, mag
             "shape": "bulk-" + shape, "regime": regime, "permuted": False}
 
 
-def build_tree(case, extras=True, source="", comments=None):
+def build_tree(case, extras=True, source="", comments=None, strided=False):
+    """`strided`: x, y, z, r are handed over as the columns of one (n, 4) float32 array (non-contiguous views), the
+    way a caller holding an xyzr matrix would."""
     from swcgeom.core import Tree
 
     n = len(case["parents"])
     kw = {}
+    if strided:
+        m = np.array([case["x"], case["y"], case["z"], case["r"]], dtype=np.float32).T.copy()
+        if extras and "tag" in case:
+            kw["tag"] = np.array(case["tag"], dtype=np.int32)
+            kw["w"] = np.array(case["w"], dtype=np.float32)
+        return Tree(n, id=np.arange(n, dtype=np.int32), pid=np.array(case["parents"], dtype=np.int32),
+                    type=np.array(case["type"], dtype=np.int32), x=m[:, 0], y=m[:, 1], z=m[:, 2], r=m[:, 3],
+                    source=source, comments=comments, **kw)
     if extras and "tag" in case:
         kw["tag"] = np.array(case["tag"], dtype=np.int32)
         kw["w"] = np.array(case["w"], dtype=np.float32)
